@@ -387,7 +387,15 @@ pub fn check_output(model: &Model, bytes: &[u8]) -> Result<Vec<Mismatch>, String
     }
     for e in &exp_exports {
         match out.exports.iter().find(|o| o.name == e.name) {
-            None => mm.push(Mismatch::new("entity_missing", "export", e.name.clone())),
+            None => {
+                let site = match e.kind {
+                    ExtKind::Func => "export(func)",
+                    ExtKind::Global => "export(global)",
+                    ExtKind::Memory => "export(memory)",
+                    _ => "export",
+                };
+                mm.push(Mismatch::new("entity_missing", site, e.name.clone()))
+            }
             Some(o) => {
                 if o.kind != e.kind {
                     mm.push(Mismatch::new("entity_changed", "export.kind", format!("{}: {:?} vs {:?}", e.name, o.kind, e.kind)));
